@@ -233,3 +233,25 @@ def array_dim_mismatch(op, s, t, q):
     b = _arr([1.0, 2.0], "B", (s, t, q))
     v = uv(1.5, "B", (s, t, q))
     return raises(lambda: f(a, b)) and raises(lambda: f(a, v)) and raises(lambda: f(v, a))
+
+
+_EQ_DIMS = [(1, 0, 0), (0, 1, 0), (0, 0, 1), (-3, 0, 1), (2, -1, 0), (0, 0, 0)]
+_EQ_LATTICE = [0.0, 1e-30, -1e-30, 1e-12, 2e-12, 1e-9, 2e-9, -1e-9, 3e-9, 1e-6, 1.0, 1.0 + 1e-6, -1.0, 1e9, 1e9 + 1.0, 1e30]
+
+
+def eq_lattice(ia, ib, k):
+    """== and != between quantities agree with the comparison of their SI values for magnitudes from 1e-30 to 1e30 (no absolute
+    tolerance: 1 nm is not 2 nm), whatever the storage systems and the operand order; ties within 1e-9 relative are not judged"""
+    pairs = [("A", "A"), ("G", "G"), ("A", "G"), ("G", "J"), ("B", "C"), ("D", "K")]
+    usa, usb = pairs[k % len(pairs)]
+    d = _EQ_DIMS[(k // len(pairs)) % len(_EQ_DIMS)]
+    a, b = _EQ_LATTICE[ia], _EQ_LATTICE[ib]
+    ua, ub = uv(a, usa, d), uv(b, usb, d)
+    sa, sb = si(ua), si(ub)
+    if usa == usb:
+        want = a == b           # same units: exact
+    elif abs(sa - sb) <= 1e-9 * (abs(sa) + abs(sb)):
+        return True             # a tie up to the rounding of the conversion constants is not judged
+    else:
+        want = False
+    return bool(ua == ub) == want and bool(ub == ua) == want and bool(ua != ub) == (not want) and bool(ub != ua) == (not want)
